@@ -1213,4 +1213,66 @@ theorem selectSpec_congr {p q : Proj} {S S' : List String} (e : SameSet S S') (h
   | none => simp [hs, sat] at this
   | some s => simp only [hs, sat] at this ⊢; rw [this, fe]
 
+/-! ## histories, permutations -/
+
+theorem run_cons (p : Proj) (o : Op) (os : List Op) :
+    run p (o :: os) = match applyOp p o with | .ok q => run q os | _ => run p os := rfl
+
+theorem selectResult_svcWF {p : Proj} (h : Partition p) (w : SvcWF p) (set : List String) :
+    SvcWF (selectResult p set) := by
+  intro kv hkv
+  rcases List.mem_append.1 hkv with a | a
+  · obtain ⟨s, hm, _, e⟩ := mem_selectedPruned a
+    rw [e]
+    exact nodup_filter (w (kv.1, s) (List.mem_append_left _ hm))
+  · exact (withServicesDisabled_inv h w _).2.1 kv (List.mem_append_right _ a)
+
+theorem carried_of_find_eq {p q : Proj} (w : SvcWF p) (h : ∀ k, find q k = find p k) : Carried p q := by
+  intro k; rw [h k]; exact Carried.refl w k
+
+/-- the same Go project: the two service maps listed in another order, the rest equal -/
+def SameProj (p p' : Proj) : Prop :=
+  p.services.Perm p'.services ∧ p.disabled.Perm p'.disabled ∧ p.profiles = p'.profiles ∧
+  p.networks = p'.networks ∧ p.volumes = p'.volumes ∧ p.secrets = p'.secrets ∧ p.configs = p'.configs
+
+/-- the same Go map -/
+def LookEq {α} (m m' : AL α) : Prop := ∀ k, lookup k m = lookup k m'
+
+theorem lookEq_of_perm {α} {a b : AL α} (h : a.Perm b) (nd : (keys a).Nodup) : LookEq a b :=
+  fun _ => lookup_perm h nd
+
+theorem partition_perm {p p' : Proj} (h : Partition p) (e : SameProj p p') : Partition p' := by
+  have k1 := List.Perm.map Prod.fst e.1
+  have k2 := List.Perm.map Prod.fst e.2.1
+  exact ⟨k1.nodup_iff.1 h.1, k2.nodup_iff.1 h.2.1,
+    fun k hk hd => h.2.2 k (k1.mem_iff.2 hk) (k2.mem_iff.2 hd)⟩
+
+theorem find_perm {p p' : Proj} (h : Partition p) (e : SameProj p p') (k : String) : find p k = find p' k := by
+  unfold find; rw [lookup_perm e.1 h.1, lookup_perm e.2.1 h.2.1]
+
+theorem mem_keys_lookEq {α} {m m' : AL α} (e : LookEq m m') (k : String) : k ∈ keys m ↔ k ∈ keys m' := by
+  rw [← lookup_isSome, ← lookup_isSome, e k]
+
+theorem disableOne_lookEq {p p' : Proj} (es : LookEq p.services p'.services) (ed : LookEq p.disabled p'.disabled)
+    (n : String) : LookEq (disableOne p n).services (disableOne p' n).services ∧
+      LookEq (disableOne p n).disabled (disableOne p' n).disabled := by
+  refine ⟨fun k => ?_, fun k => ?_⟩
+  · rw [lookup_disableOne_services, lookup_disableOne_services, es k]
+  · rw [lookup_disableOne_disabled, lookup_disableOne_disabled, es n, ed k]
+    simp only [mem_keys_lookEq es n]
+
+theorem edge_lookEq {svcs svcs' : AL Svc} (e : LookEq svcs svcs') {pol : Policy} {x y : String}
+    (h : Edge svcs pol x y) : Edge svcs' pol x y := by
+  cases pol with
+  | deps => obtain ⟨s, h1, h2, h3⟩ := h; exact ⟨s, (e x) ▸ h1, h2, (mem_keys_lookEq e y).1 h3⟩
+  | dependents => obtain ⟨h1, s, h2, h3⟩ := h; exact ⟨(mem_keys_lookEq e x).1 h1, s, (e y) ▸ h2, h3⟩
+  | ignore => exact h
+
+theorem reach_lookEq {svcs svcs' : AL Svc} (e : LookEq svcs svcs') {pol : Policy} {roots : List String} {x : String}
+    (h : Reach svcs pol roots x) : Reach svcs' pol roots x := by
+  induction h with
+  | root hr hk => exact .root hr ((mem_keys_lookEq e _).1 hk)
+  | step _ ed ih => exact .step ih (edge_lookEq e ed)
+
+
 end CV.Sel
